@@ -52,7 +52,8 @@ def run(chk):
                        "families and the generated JavaScript text between template and runtime are covered by the reference-render oracle only; the Lean part also "
                        "proves the branch selector statement and name normalisation"]
     chk.model_tie([("GE.Thm.C04", THEOREMS), ("GE.Thm.C04Tag", ["GE.TagSem.creation_denotes", "GE.TagSem.create_denotes", "GE.TagSem.firstTrue_range"]),
-                   ("GE.Thm.C02Args", ["GE.ChildArgs.args_cover", "GE.ChildArgs.table_ok_range", "GE.ChildArgs.params_text", "GE.ChildArgs.childLevel_keys"])])
+                   ("GE.Thm.C02Args", ["GE.ChildArgs.args_cover", "GE.ChildArgs.table_ok_range", "GE.ChildArgs.params_text", "GE.ChildArgs.childLevel_keys"]),
+                   ("GE.Thm.C13Leaves", ["GE.TagTree.leaves_parse"])])
     from . import childargs
     childargs.run(chk)
     rng = chk.rng.fork("c04")
